@@ -636,6 +636,14 @@ class SimDevice(object):
             if not ready:
                 return False
         q, st = ready[self.pick(ready) if len(ready) > 1 else 0]
+        if st is not None and "zeroid" in self.noise and q[0].cmd == "OKAY" and st.okays_emitted == 0 and not st.refused and self.rng.random() < 0.35:
+            # a packet with zeroed stream ids in front of the answer to an OPEN (some devices send them; the library matches them to ANY stream):
+            # the opener, which wants an exact match, sets it aside. Used only where two implementations are compared with each other (C16).
+            zp = wire.Packet("WRTE", self.rng.choice([0, st.remote]), 0, b"ZEROID-%d\n" % self.emitted)
+            zp.index = self.emitted
+            self.emitted += 1
+            self._emit(zp, noise=True)
+            return True
         it = q.popleft()
         if st is None:
             pkt = wire.Packet(it.cmd, it.arg0, it.arg1, it.payload)
